@@ -228,4 +228,65 @@ Proof.
   - left. unfold step. now rewrite Ec.
   - left. unfold step. now rewrite Ec.
 Qed.
+
+(* ---- KILL CONNECTION, for every state of the command phase ---------------------------------------------------------------------- *)
+Definition cmd_frame (f : frame) : bool :=
+  match f with FRead | FHandler | FChangeUser | FChangeUserReset | FHandlerErr _ => true | _ => false end.
+
+(* the sequence number the ERR of the kill is written with: the current one at the prompt, a fresh sequence inside a command *)
+Definition kc_seq (s : st) (f : frame) : N := match f with FRead => seq s | _ => 0%N end.
+
+Theorem kc_terminates s w k f ic :
+  ctl_ s = Susp w k f ic -> cmd_frame f = true -> dead s = false ->
+  let r := step B BATCH s (EvKill KC) in
+  closes (fst r) = (if paused s then closes s else S (closes s)) /\ buf (fst r) = [] /\
+  (if paused s
+   then snd r = [OWrite (map fst (buf s) ++ [(kc_seq s f, PErr E_SESSION_WAS_KILLED)])] /\
+        ctl_ (fst r) = Susp WDrain [] FKillErr None /\ kill (fst r) = Some KC
+   else snd r = [OWrite (map fst (buf s) ++ [(kc_seq s f, PErr E_SESSION_WAS_KILLED)]); OSess SClose] /\
+        ctl_ (fst r) = Susp (WApp SClose) [] (FClose false) None).
+Proof.
+  intros Hc Hf Hd. unfold step. rewrite Hc. unfold kill_accepted.
+  unfold raise_at. set (s1 := kill_cursor (set_kill s (Some KC)) ic).
+  destruct (kc_fields (set_kill s (Some KC)) ic) as (F1 & F2 & F3 & F4 & F5 & F6 & F7 & F8 & F9). fold s1 in F1, F2, F3, F4, F5, F6, F7, F8, F9.
+  cbn [buf seq kill dead paused inq eof closes handed set_kill] in F1, F2, F3, F4, F5, F6, F7, F8, F9.
+  assert (T : exists s2, throw s1 XCancel f = Continue s2 (errplan E_SESSION_WAS_KILLED) FKillErr /\
+              buf s2 = buf s /\ seq s2 = kc_seq s f /\ dead s2 = false /\ paused s2 = paused s /\ closes s2 = closes s /\ kill s2 = Some KC).
+  { destruct f; try discriminate Hf; cbn [throw kill set_exec set_seq]; rewrite F3;
+    eexists; (split; [reflexivity|]); cbn [buf seq dead paused closes kill set_exec set_seq kc_seq]; repeat split; congruence. }
+  destruct T as (s2 & -> & G1 & G2 & G3 & G4 & G5 & G6).
+  unfold go. destruct (FUEL s2 (errplan E_SESSION_WAS_KILLED)) as [|[|[|n]]] eqn:EF; try (unfold FUEL in EF; lia).
+  unfold errplan. cbn [Conn.run exec_op orb]. unfold do_drain, flush.
+  cbn [buf set_seq set_buf seq handed]. rewrite G1.
+  destruct (buf s ++ [(seq s2, PErr E_SESSION_WAS_KILLED, SZ_ERR)]) as [|e b] eqn:Eb; [destruct (buf s); discriminate Eb|].
+  rewrite <- Eb. cbn [dead set_buf set_seq]. rewrite G3. cbn [paused set_buf set_seq]. rewrite G4.
+  destruct (paused s).
+  - cbn [fst snd upd_ctl ctl_ closes buf kill set_buf set_seq]. rewrite G5, G6, G2, map_app. cbn [map fst]. repeat split; reflexivity.
+  - cbn [prepend Conn.run end_plan exec_op]. unfold prepend.
+    cbn [fst snd app upd_ctl ctl_ closes buf inc_closes set_kill set_buf set_seq]. rewrite G5, G2, map_app. cbn [map fst]. repeat split; reflexivity.
+Qed.
+
+(* the socket accepts data again: the session is closed, once *)
+Theorem kc_resumes s :
+  ctl_ s = Susp WDrain [] FKillErr None ->
+  let r := step B BATCH s EvResume in
+  snd r = [OSess SClose] /\ ctl_ (fst r) = Susp (WApp SClose) [] (FClose false) None /\ closes (fst r) = S (closes s).
+Proof.
+  intros Hc. unfold step. rewrite Hc. unfold go.
+  destruct (FUEL (set_paused s false) []) as [|[|n]] eqn:EF; try (unfold FUEL in EF; lia).
+  cbn [Conn.run end_plan exec_op]. unfold prepend. cbn [fst snd app upd_ctl ctl_ closes inc_closes set_kill set_paused]. repeat split; reflexivity.
+Qed.
+
+(* session.close() returned (or raised): the task ends, the socket is closed and the registry entry removed - once *)
+Theorem kc_finishes s o re :
+  ctl_ s = Susp (WApp SClose) [] (FClose re) None ->
+  let r := step B BATCH s (EvApp o) in
+  ctl_ (fst r) = Done /\ closes (fst r) = closes s /\
+  exists exc, snd r = [OEnd exc; OWriterClose; OCtlRemove].
+Proof.
+  intros Hc. unfold step. rewrite Hc.
+  destruct o as [|sz items|[cd|]|]; unfold raise_at, go; cbn [kill_cursor throw];
+    try (destruct (FUEL s []) as [|n] eqn:EF; [unfold FUEL in EF; lia|]; cbn [Conn.run end_plan]);
+    unfold finish; cbn [fst snd upd_ctl ctl_ closes]; repeat split; eauto.
+Qed.
 End KillAbort.
